@@ -647,6 +647,12 @@ func c10Judge(r *fw.Rec, tag string, lits []fpLit) {
 // input (as LLVM reads it) and the exact wrong behaviour.
 func c10DiffClass(kind, class, in, got string) string {
 	if strings.HasPrefix(in, "0x") && isNaNLit(in) {
+		if isCanonicalNaN(in) {
+			// LLVM's own canonical quiet NaN (what it folds to, what clang emits) has no
+			// payload to lose: it must come back as it is (the listed findings are about
+			// the other NaNs)
+			return "canonical-nan-changed"
+		}
 		if strings.HasPrefix(got, "0x") && isCanonicalNaN(got) && sameSignLit(in, got) {
 			return "nan-payload-canonicalised"
 		}
